@@ -179,6 +179,22 @@ class Parser:
             if self.at("unsafe") and self.at("fn", 1) or self.at("fn"):
                 f = self.fn(); f["owner"] = None
                 items.append({"k": "fn", "fn": f}); continue
+            if self.peek()[0] == "id" and self.at("!", 1) and not self.at("macro_rules"):
+                # macro invocation at item level (newtype! { .. }, impl_from_..!(..);): tables, read by tools/extract.py
+                name = self.ident(); self.i += 1
+                depth = 0
+                while True:
+                    t = self.peek()
+                    if t[0] == "eof": break
+                    self.i += 1
+                    if t[0] != "str" and t[1] in "{([": depth += 1
+                    if t[0] != "str" and t[1] in "})]":
+                        depth -= 1
+                        if depth == 0: break
+                self.eat(";")
+                macro_seen = [x for x in items if x["k"] == "skipped" and x["what"].startswith("macro invocations")]
+                if not macro_seen: items.append({"k": "skipped", "what": "macro invocations (tables regenerated by tools/extract.py)"})
+                continue
             if self.at("mod") or self.at("const") or self.at("type") or self.at("macro_rules") or self.at("static"):
                 # skipped wholesale (brace / semicolon matching); listed in the generated header
                 what = "%s %s" % (self.peek()[1], self.peek(1)[1])
@@ -769,6 +785,8 @@ class Gen:
                     kept.append(it)
                 elif it["k"] == "fn" and it["fn"]["name"] in cfg.get("only_fns", []):
                     kept.append(it)
+                elif it["k"] == "impl" and it.get("trait") is None and it.get("type") in cfg.get("inherent_impls", []):
+                    kept.append(it)
                 elif it["k"] == "skipped":
                     kept.append(it)
                 else:
@@ -879,6 +897,7 @@ class Gen:
         if n == "Self":
             if self.trait_kind.get(owner) == "factory": return "β"
             if self.trait_kind.get(owner) == "message": return "α"
+            if owner in NAT_TYPES: return "Nat"
             if owner in EXTERN_TYPES and owner not in self.structs and owner not in self.enums: return EXTERN_TYPES[owner]
             return self.rename[owner]
         if n in fngen: return "β"
@@ -1015,6 +1034,8 @@ class Gen:
         """machine integer type of an expression, where it can be read off syntactically (None otherwise)"""
         k = e["k"]
         if k == "cast": return e["to"]
+        if k == "tfield" and e["idx"] == 0 and e["e"].get("k") == "path" and e["e"]["segs"] == ["self"]:
+            return self.REPR.get(ctx["owner"])
         if k == "path":
             t = self.rtype(e, env, ctx)
             if t and t["k"] == "ref": t = t["inner"]
@@ -1157,7 +1178,7 @@ class Gen:
         elif K == "struct":
             segs = e["segs"]
             decl = None
-            var = self.variant_of(segs, {"vars": {}, "imports": set(self.all_enum_names())}, ctx)
+            var = self.variant_of_loose(segs, ctx)
             if var and var[1]["kind"] == "struct": decl = dict(var[1]["fields"])
             else:
                 name = ctx["owner"] if segs == ["Self"] else segs[-1]
@@ -1169,7 +1190,7 @@ class Gen:
             segs = f["segs"] if f.get("k") == "path" else []
             if segs == ["Some"] and len(e["args"]) == 1:
                 self.annotate(e["args"][0], opt_inner(t), env, ctx); return
-            var = self.variant_of(segs, {"vars": {}, "imports": set(self.all_enum_names())}, ctx) if segs else None
+            var = self.variant_of_loose(segs, ctx) if segs else None
             if var and var[1]["kind"] == "tuple" and len(var[1]["types"]) == len(e["args"]):
                 for a, at in zip(e["args"], var[1]["types"]): self.annotate(a, at, env, ctx)
                 return
@@ -1203,6 +1224,14 @@ class Gen:
     def all_enum_names(self):
         return list(self.enums) + list(self.extern_enum_decls)
 
+    def variant_of_loose(self, segs, ctx):
+        """for the expected-type pre-pass only: a fully qualified variant, else (bare names) none"""
+        if len(segs) != 2: return None
+        try:
+            return self.variant_of(segs, {"vars": {}, "imports": set()}, ctx)
+        except TErr:
+            return None
+
     def check_factory(self, key, ctx):
         if key in self.needs_factory and ctx.get("key") not in self.needs_factory and not ctx.get("factory_arg"):
             raise TErr("call of a factory-generic function from a function without a factory parameter")
@@ -1227,13 +1256,16 @@ class Gen:
                 for v in self.extern_enum_decls[en]["variants"]:
                     if v["name"] == segs[1]: return ("%s.%s" % (EXTERN_ENUMS[en], lower_first(v["name"])), v, True)
         if len(segs) == 1:
+            found = []
             for en in sorted(env["imports"]):
                 if en in self.enums:
                     for v in self.enums[en]["variants"]:
-                        if v["name"] == segs[0]: return ("%s.%s" % (self.rename[en], v["name"]), v, False)
+                        if v["name"] == segs[0]: found.append(("%s.%s" % (self.rename[en], v["name"]), v, False))
                 elif en in EXTERN_ENUMS and en in self.extern_enum_decls:
                     for v in self.extern_enum_decls[en]["variants"]:
-                        if v["name"] == segs[0]: return ("%s.%s" % (EXTERN_ENUMS[en], lower_first(v["name"])), v, True)
+                        if v["name"] == segs[0]: found.append(("%s.%s" % (EXTERN_ENUMS[en], lower_first(v["name"])), v, True))
+            if len(found) > 1: raise TErr("variant name %s is ambiguous between glob-imported enums" % segs[0])
+            if found: return found[0]
         return None
 
     def variant_enum(self, segs, env, ctx):
@@ -1291,6 +1323,8 @@ class Gen:
         if K == "field":
             return self.E(e["e"], env, ctx, lambda v, env2: k("%s.%s" % (v, e["name"]) if re.match(r"^[\w.]+$", v) else "(%s).%s" % (v, e["name"]), env2))
         if K == "tfield":
+            if e["idx"] == 0 and e["e"].get("k") == "path" and e["e"]["segs"] == ["self"] and ctx["owner"] in NAT_TYPES:
+                return k("self", env)                      # the payload of a restricted integer is the Nat itself
             return self.E(e["e"], env, ctx, lambda v, env2: k("(%s).%d" % (v, e["idx"] + 1), env2))
         if K == "unary":
             op = {"!": "!", "-": "-"}[e["op"]]
@@ -1314,6 +1348,13 @@ class Gen:
                         raise TErr("`<<` by a non-literal or over-wide amount (would panic in debug builds)")
                     self.notes.add("`<<` on uN drops the bits shifted out: (a <<< k) % 2^N")
                     return k("((%s <<< %s) %% %d)" % (a, b, CAST_MOD[t]), env2)
+                if op == "+" and not e.get("index_arith"):
+                    t = self.int_type(e["a"], env2, ctx) or self.int_type(e["b"], env2, ctx)
+                    if t not in CAST_MOD: raise TErr("`+` on operands whose width is unknown")
+                    self.notes.add("`+` on uN is checked addition (the harness builds with overflow checks): overflow = panic addOverflow")
+                    tmp = self.fresh()
+                    return paren(["if %s + %s < %d then" % (a, b, CAST_MOD[t])] + ind(["let %s := %s + %s" % (tmp, a, b)] + k(tmp, env2)) +
+                                 ["else"] + ind([".error .addOverflow"]))
                 if op == "+" and e.get("index_arith"):
                     self.notes.add("`+=` on a usize index local is unbounded addition on Nat (the index stays below the array length, far from overflow)")
                     return k("(%s + %s)" % (a, b), env2)
@@ -1388,6 +1429,8 @@ class Gen:
             def kmt(v, env2):
                 pat = e["pat"]
                 alts = pat["alts"] if pat["k"] == "por" else [pat]
+                if all(a["k"] == "plit" for a in alts):
+                    return k("(" + " || ".join("%s == %d" % (v, a["v"]) for a in alts) + ")", env2)
                 lps = []
                 for a in alts:
                     lp, lets, env3 = self.pat(a, env2, ctx)
@@ -1782,7 +1825,9 @@ FILES = [("control_change_14_bit_message.rs", "CCMsg", {}),
          # the default methods of the two traits (everything else in these files stays hand-modelled)
          ("short_message.rs", "ShortMsg", {"only_traits": ["ShortMessage"], "tuple3_bytes": True,
                                            "only_fns": ["build_mtc_quarter_frame_data_byte", "extract_low_nibble_from_byte",
-                                                        "extract_high_nibble_from_byte", "build_byte_from_nibbles"]}),
+                                                        "extract_high_nibble_from_byte", "build_byte_from_nibbles"],
+                                           "inherent_impls": ["ShortMessageType", "FuzzyMessageSuperType", "MessageSuperType"]}),
+         ("controller_number_mod.rs", "CnPredicates", {"only_traits": [], "inherent_impls": ["ControllerNumber"]}),
          ("bit_util.rs", "BitUtil", {}),
          ("short_message_factory.rs", "FactoryDefaults", {"only_traits": ["ShortMessageFactory"], "tuple3_bytes": True,
                                                           "skip_fns": ["from_bytes"]}),
